@@ -100,4 +100,24 @@ theorem finding_cog3_energy_negative (p : Cog3.P) (r t : ℝ) (hρ : 0 < p.rho0)
   apply div_neg_of_pos_of_neg (by positivity)
   rw [sub_neg, div_lt_one hk]; linarith
 
+/-! ### non-vacuity -/
+
+/-- Cog4 / Cog12 with γ = 1/2 -/
+example : ∃ (p : Cog4.P) (r : ℝ), 0 < p.gamma ∧ p.gamma < 1 ∧ 0 < p.rho0 ∧ p.u0 ≠ 0 ∧ 0 < p.Gamma ∧ 0 < r :=
+  ⟨⟨40, 0, 0, 0, 0, 1 / 2, 3, 0, 7 / 5, 23 / 10⟩, 1, by norm_num, by norm_num, by norm_num, by norm_num, by norm_num,
+    by norm_num⟩
+
+example : ∃ (p : Cog12.P) (r : ℝ), 0 < p.gamma ∧ p.gamma < 1 ∧ 0 < p.rho0 ∧ p.u0 ≠ 0 ∧ 0 < p.Gamma ∧ 0 < r :=
+  ⟨⟨40, 0, 0, 1, 0, 0, 1 / 2, 3, 0, 9 / 5, 23 / 10⟩, 1, by norm_num, by norm_num, by norm_num, by norm_num,
+    by norm_num, by norm_num⟩
+
+/-- the class defaults of Cog5 -/
+example : ∃ (p : Cog5.P) (r : ℝ), 0 < p.rho0 ∧ 0 < p.u0 ∧ 0 < p.Gamma ∧ 0 < r :=
+  ⟨⟨40, 0, 0, 0, 0, 0, 9 / 5, 23 / 10⟩, 1, by norm_num, by norm_num, by norm_num, by norm_num⟩
+
+/-- the class defaults of Cog3 (spherical, v = 1/2, b = 6/5): T = (b r/v)²/(Γ (k-v-1)) > 0 at r = 1 -/
+example : ∃ (p : Cog3.P) (r t : ℝ), 0 < p.rho0 ∧ 0 < p.Gamma ∧ 0 < r ∧ 0 < p.geometry ∧ 0 < Cog3.temperature p r t :=
+  ⟨⟨40, 0, 0, 6 / 5, 0, 0, 3, 0, 9 / 5, 1 / 2⟩, 1, 0, by norm_num, by norm_num, by norm_num, by norm_num, by
+    simp only [epv_tree, epv_leaf]; norm_num⟩
+
 end EPV.C17
